@@ -331,6 +331,7 @@ def kernels(tier):
                     continue  # detuning role needs decimal-closed arithmetic (D-mode)
                 ks.append(("finite", dict(cls=cls, dur=d, **{"as": as_})))
     ks += [("l1", s) for s in l1.step_shapes(tier)]
+    ks += [("l1", s) for s in l1.eom_shapes(tier)]
     return ks
 
 
